@@ -238,6 +238,30 @@ impl Keyer {
                 }
             }
         }
+        // serial regime: move every SOA serial of the witness to mid-range, keeping all distances;
+        // if the violation persists, the position of the serial relative to the 2^32 wrap does not
+        // matter and the witness is printed in the ordinary regime
+        let cur = zone.serial().unwrap_or(0);
+        if cur == 0 || cur > 1_000_000 {
+            let shift = 1000u32.wrapping_sub(cur);
+            let shift_rr = |r: &Rr| -> Rr {
+                let mut r = r.clone();
+                if r.rtype == ru::T_SOA && r.rdata.len() >= 20 {
+                    let p = r.rdata.len() - 20;
+                    let s = u32::from_be_bytes(r.rdata[p..p + 4].try_into().unwrap()).wrapping_add(shift);
+                    r.rdata[p..p + 4].copy_from_slice(&s.to_be_bytes());
+                }
+                r
+            };
+            let mut z = zone.clone();
+            z.rrs = z.rrs.iter().map(shift_rr).collect();
+            z.rrs.sort();
+            let m = Msg { prereqs: msg.prereqs.iter().map(shift_rr).collect(), updates: msg.updates.iter().map(shift_rr).collect() };
+            if self.fails(w, f, &z, &m) {
+                zone = z;
+                msg = m;
+            }
+        }
         let detail = if f.detail.is_empty() { String::new() } else { format!("[{}]", f.detail) };
         if f.clause == "serial" && f.detail == "exp=stay obs=advanced" && msg.updates.len() >= 2 && cancels_out(&zone, &msg) {
             // one root cause by construction: the message as a whole leaves the content as it was,
